@@ -282,7 +282,7 @@ outer:
 			if res.nontrivial {
 				nontriv++ // distinct by construction: the enumerator visits every (configuration, event list) once
 			}
-			if res.sampleTag != "" && samples[res.sampleTag] == 0 && len(samples) < 2 {
+			if sh, _ := r.Shard(); sh == 0 && res.sampleTag != "" && samples[res.sampleTag] == 0 && len(samples) < 2 { // 2 per leg, from shard 0 only: the driver keeps 6
 				samples[res.sampleTag]++
 				r.Sample(P, map[string]any{"leg": leg.name, "config": leg.cfgDesc(it.cfg), "kind": res.sampleTag, "timeline": res.timeline, "peer_saw": res.log, "outcome": res.outcome})
 			}
